@@ -400,16 +400,21 @@ static void xml_show_incomplete(TestReporter *reporter, const char *filename,
 }
 
 static void insert_child_results(struct xml_suite_context *ctx) {
-    char childData[4096];
-    fseek(child_output_tmpfile, 0, SEEK_SET);
+    char *childData;
+    long size;
+    size_t pos;
 
-    size_t pos = 0, ret;
-    while (!feof(child_output_tmpfile)) {
-        ret = fread(childData+pos, 1, sizeof(childData)-pos, child_output_tmpfile);
-        if (ferror(child_output_tmpfile)) {
-            abort();
-        }
-        pos += ret;
+    /* the test may have reported any number of failures: take all of it */
+    fseek(child_output_tmpfile, 0, SEEK_END);
+    size = ftell(child_output_tmpfile);
+    fseek(child_output_tmpfile, 0, SEEK_SET);
+    if (size < 0 || (childData = malloc((size_t)size + 1)) == NULL) {
+        abort();
+    }
+
+    pos = fread(childData, 1, (size_t)size, child_output_tmpfile);
+    if (ferror(child_output_tmpfile)) {
+        abort();
     }
 
     fclose(child_output_tmpfile);
@@ -427,6 +432,7 @@ static void insert_child_results(struct xml_suite_context *ctx) {
 
         xmlAddChildList(ctx->curTest, childLst);
     }
+    free(childData);
 }
 
 static void xml_reporter_finish_test(TestReporter *reporter, const char *filename,
